@@ -6,6 +6,7 @@ theorems about it) but not the model driver that every check needs.  Core Lean o
 import KlogV.Model.Canon
 import KlogV.Gen.GoSrc
 import KlogV.Gen.GoTxt
+import KlogV.Gen.GoPar
 open KlogV
 
 /-! ### `gs.*`: the same questions answered by the TRANSLATED Go source (KlogV/Gen/GoSrc.lean); the harness compares the
@@ -66,6 +67,12 @@ def handleGs (args : List String) : Option String :=
     some (match gsBlocksLoop (text.length + 1) text 0 [] with
       | some bs => "ok " ++ canonBlocks (bs.map (·.map gsLineToModel)) ++ " sig=" ++ commaSep (bs.map gsSigLine)
       | none => "panic")
+  | ["gs.chunks", h, n] =>
+    let text := bytesOfHex h
+    some (match GoPar.splitIntoChunks (text.length + 1) text n.toInt! with
+      | .ok cs => "ok " ++ commaSep (cs.map (fun c => hexOrDash (hexOfBytes c)))
+      | .error (.err m) => "err " ++ m
+      | .error .panic => "panic")
   | ["gs.translated"] => some (" ".intercalate GoSrc.translated)
   | _ => none
 
